@@ -21,54 +21,95 @@ META = {
 ANCHORS = ["nn.LinearLayerTT.__init__", "nn.LinearLayerTT.forward", "_aux_ops.dense_matvec"]
 
 
+def _paths(stmts):
+    """all straight-line paths through if/elif/else nests: lists of simple statements; a path ending in raise is marked"""
+    paths = [([], False)]
+    for st in stmts:
+        nxt = []
+        for seq, dead in paths:
+            if dead:
+                nxt.append((seq, dead))
+                continue
+            if isinstance(st, ast.If):
+                for sub, d2 in _paths(st.body):
+                    nxt.append((seq + [("test", st.test, True)] + sub, d2))
+                for sub, d2 in _paths(st.orelse):
+                    nxt.append((seq + [("test", st.test, False)] + sub, d2))
+            elif isinstance(st, ast.Raise):
+                nxt.append((seq + [st], True))
+            else:
+                nxt.append((seq + [st], False))
+        paths = nxt
+    return paths
+
+
+def _resolve(e, env, depth=0):
+    while isinstance(e, ast.Name) and e.id in env and depth < 6:
+        e = env[e.id]
+        depth += 1
+    return e
+
+
 def rule_register(model: Model):
+    """On every completing path of __init__: self.cores = ParameterList([Parameter(c) for c in W.cores]) with W = randn([(out_k, in_k)...], rank,
+    dtype=dtype), self.bias = Parameter(zeros(size_out, dtype=dtype)); unknown initialisers raise.  Names are resolved through the
+    assignments of the path, so locals may be called anything and shared code may sit inside or after the branches."""
     f = model.func("nn.LinearLayerTT.__init__")
     obs = []
-    top = [s for s in f.node.body if isinstance(s, ast.If)]
     k0 = "nn.LinearLayerTT.__init__:REGISTER:"
-    if not top:
-        return [Ob("REGISTER", k0 + "dispatch", ERROR, model.where(f), "if initializer == ...", "initialiser dispatch not found")]
-    branches = []
-    node = top[0]
-    while True:
-        branches.append((norm(node.test), node.body))
-        if len(node.orelse) == 1 and isinstance(node.orelse[0], ast.If):
-            node = node.orelse[0]
-        else:
-            final_else = node.orelse
-            break
-    ok_else = any(isinstance(s, ast.Raise) for s in final_else)
-    obs.append(Ob("REGISTER", k0 + "else-raises", OK if ok_else else VIOLATED, model.where(f), "else: raise",
-                  "unknown initialisers are rejected" if ok_else else "an unknown initialiser falls through and the layer has no parameters"))
-    for test, body in branches:
-        tag = test[:40]
-        assigns = {}
-        for s in body:
-            if isinstance(s, ast.Assign):
-                for t in s.targets:
-                    assigns[norm(t)] = s.value
+    paths = _paths(f.node.body)
+    done = [(seq, dead) for seq, dead in paths if not dead]
+    raised = [(seq, dead) for seq, dead in paths if dead]
+    obs.append(Ob("REGISTER", k0 + "else-raises", OK if raised else VIOLATED, model.where(f), "unknown initialiser -> raise",
+                  "unknown initialisers are rejected" if raised else "an unknown initialiser falls through and the layer has no parameters"))
+    if not done:
+        return obs + [Ob("REGISTER", k0 + "paths", ERROR, model.where(f), "__init__", "no completing path found")]
+    for pi, (seq, _) in enumerate(done):
+        tests = [norm(x[1]) + ("" if x[2] else " is false") for x in seq if isinstance(x, tuple)]
+        tag = " & ".join(tests)[:60] or f"path{pi}"
+        env = {}
+        for st in seq:
+            if isinstance(st, ast.Assign):
+                for t in st.targets:
+                    if isinstance(t, ast.Tuple) and isinstance(st.value, ast.Tuple) and len(t.elts) == len(st.value.elts):
+                        for tt_, vv in zip(t.elts, st.value.elts):
+                            env[norm(tt_)] = vv
+                    else:
+                        env[norm(t)] = st.value
         # cores
-        v = assigns.get("self.cores")
-        ok = isinstance(v, ast.Call) and (model.resolve(f.module, v.func) == "torch.nn.ParameterList") and v.args \
-            and isinstance(v.args[0], ast.ListComp) and isinstance(v.args[0].elt, ast.Call) \
-            and model.resolve(f.module, v.args[0].elt.func) == "torch.nn.Parameter" and norm(v.args[0].generators[0].iter) == "t.cores"
+        v = _resolve(env.get("self.cores"), env) if "self.cores" in env else None
+        W = None
+        ok = isinstance(v, ast.Call) and model.resolve(f.module, v.func) == "torch.nn.ParameterList" and v.args
+        if ok:
+            lc = _resolve(v.args[0], env)
+            ok = isinstance(lc, ast.ListComp) and len(lc.generators) == 1 and isinstance(lc.elt, ast.Call) and model.resolve(f.module, lc.elt.func) == "torch.nn.Parameter" \
+                and isinstance(lc.generators[0].target, ast.Name) and lc.elt.args and norm(lc.elt.args[0]) == lc.generators[0].target.id \
+                and isinstance(lc.generators[0].iter, ast.Attribute) and lc.generators[0].iter.attr == "cores"
+            if ok:
+                W = _resolve(lc.generators[0].iter.value, env)
         obs.append(Ob("REGISTER", k0 + f"{tag}:cores", OK if ok else VIOLATED, model.where(f), norm(v)[:90] if v is not None else "<missing>",
                       "cores registered as nn.ParameterList of nn.Parameter, in order" if ok else
-                      "self.cores is not an nn.ParameterList of nn.Parameter over t.cores: the cores are not trainable parameters of the module"))
-        b = assigns.get("self.bias")
-        okb = isinstance(b, ast.Call) and model.resolve(f.module, b.func) == "torch.nn.Parameter"
+                      "self.cores is not an nn.ParameterList of nn.Parameter over the cores of the weight operator: the cores are not trainable parameters of the module"))
+        b = _resolve(env.get("self.bias"), env) if "self.bias" in env else None
+        okb = isinstance(b, ast.Call) and model.resolve(f.module, b.func) == "torch.nn.Parameter" and b.args
         obs.append(Ob("REGISTER", k0 + f"{tag}:bias", OK if okb else VIOLATED, model.where(f), norm(b)[:90] if b is not None else "<missing>",
                       "bias registered as nn.Parameter" if okb else "self.bias is not an nn.Parameter"))
-        bz = assigns.get("bias")
-        okz = isinstance(bz, ast.Call) and model.resolve(f.module, bz.func) == "torch.zeros" and norm(bz.args[0]) == "size_out" and \
-            any(kw.arg == "dtype" and norm(kw.value) == "dtype" for kw in bz.keywords)
+        bz = _resolve(b.args[0], env) if okb else None
+        okz = isinstance(bz, ast.Call) and model.resolve(f.module, bz.func) == "torch.zeros" and bz.args and norm(_resolve(bz.args[0], env)) == "size_out" and \
+            any(kw.arg == "dtype" and norm(_resolve(kw.value, env)) == "dtype" for kw in bz.keywords)
         obs.append(Ob("REGISTER", k0 + f"{tag}:bias-shape", OK if okz else VIOLATED, model.where(f), norm(bz)[:90] if bz is not None else "<missing>",
                       "bias has the output shape and the layer dtype" if okz else "bias must be zeros(size_out, dtype=dtype)"))
-        t = assigns.get("t")
-        okt = isinstance(t, ast.Call) and model.resolve(f.module, t.func) == "torchtt._extras.randn" and t.args and \
-            norm(t.args[0]).replace(" ", "") == "[(s2,s1)fors1,s2inzip(size_in,size_out)]" and norm(t.args[1]) == "rank" and \
-            any(kw.arg == "dtype" and norm(kw.value) == "dtype" for kw in t.keywords)
-        obs.append(Ob("REGISTER", k0 + f"{tag}:weight", OK if okt else VIOLATED, model.where(f), norm(t)[:100] if t is not None else "<missing>",
+        okt = isinstance(W, ast.Call) and model.resolve(f.module, W.func) == "torchtt._extras.randn" and len(W.args) >= 2 and \
+            norm(_resolve(W.args[1], env)) == "rank" and any(kw.arg == "dtype" and norm(_resolve(kw.value, env)) == "dtype" for kw in W.keywords)
+        if okt:
+            shp = _resolve(W.args[0], env)
+            okt = False
+            if isinstance(shp, ast.ListComp) and len(shp.generators) == 1 and isinstance(shp.elt, ast.Tuple) and len(shp.elt.elts) == 2 \
+                    and isinstance(shp.generators[0].target, ast.Tuple) and len(shp.generators[0].target.elts) == 2 \
+                    and isinstance(shp.generators[0].iter, ast.Call) and norm(shp.generators[0].iter.func) == "zip" and len(shp.generators[0].iter.args) == 2:
+                src = {norm(tv): norm(_resolve(sv, env)) for tv, sv in zip(shp.generators[0].target.elts, shp.generators[0].iter.args)}
+                okt = src.get(norm(shp.elt.elts[0])) == "size_out" and src.get(norm(shp.elt.elts[1])) == "size_in"
+        obs.append(Ob("REGISTER", k0 + f"{tag}:weight", OK if okt else VIOLATED, model.where(f), norm(W)[:100] if W is not None else "<missing>",
                       "weight operator built with rows = output sizes, columns = input sizes, the given rank and dtype" if okt else
                       "the weight must be randn([(out_k, in_k)], rank, dtype=dtype): rows are the output modes"))
     return obs
